@@ -4,7 +4,7 @@
   The interaction of live iterators with edits (stale `i->hr`, `hostlist_shift_iterators`) is the
   subject of the edit model (C16) and is added there on top of these definitions.
 
-  DEFECT SWITCHES: D17 `iterSuffix` (suffix[16]); D24 `nthName` (buf[MAXHOSTNAMELEN+16]).
+  DEFECT SWITCHES (fields of `cfg`): D17 `iterSuffix` (suffix[16]); D24 `nthName` (buf[MAXHOSTNAMELEN+16]).
 -/
 import PdshVerif.Hostlist.Parse
 
@@ -30,29 +30,30 @@ def iterAdvance (h : HL) (it : Iter) : Iter :=
     if (it.depth + 1).toNat > subU64 r.hi r.lo then ⟨it.idx + 1, 0⟩ else ⟨it.idx, it.depth + 1⟩
 
 /-- DEFECT D17: `char suffix[16]; snprintf(suffix, 15, "%0*lu", width, lo + depth)` keeps the
-    first 14 characters of the formatted number only.   Repaired form: `s`. -/
-def iterSuffix (s : Str) : Str := s.take 14
+    first 14 characters of the formatted number only.   Repaired: the buffer is sized from the
+    width (at least 20 digits). -/
+def iterSuffix (cfg : Cfg) (s : Str) : Str := if cfg.fixIterSuffix then s else s.take 14
 
 /-- `hostlist_next` -/
-def iterNext (h : HL) (it : Iter) : Option Str × Iter :=
+def iterNext (cfg : Cfg) (h : HL) (it : Iter) : Option Str × Iter :=
   let it' := iterAdvance h it
   match h.ranges[it'.idx]? with
   | none => (none, it')
   | some r =>
     let suffix := if r.single then []
-      else iterSuffix (fmtPad r.width (addU64 r.lo it'.depth.toNat))
+      else iterSuffix cfg (fmtPad r.width (addU64 r.lo it'.depth.toNat))
     (some (r.pre ++ suffix), it')
 
 /-- `while ((host = hostlist_next(i)))`, at most `limit` names -/
-def iterLoop (h : HL) : Nat → Iter → List Str
+def iterLoop (cfg : Cfg) (h : HL) : Nat → Iter → List Str
   | 0, _ => []
   | n + 1, it =>
-    match iterNext h it with
+    match iterNext cfg h it with
     | (none, _) => []
-    | (some x, it') => x :: iterLoop h n it'
+    | (some x, it') => x :: iterLoop cfg h n it'
 
 /-- the names a fresh iterator yields (what `dsh()` walks), cut off after `limit` names -/
-def iterAll (h : HL) (limit : Nat) : List Str := iterLoop h limit Iter.new
+def iterAll (cfg : Cfg) (h : HL) (limit : Nat) : List Str := iterLoop cfg h limit Iter.new
 
 /-! ### shift -/
 /-- `hostrange_shift`: malloc(strlen(prefix) + width + 16), snprintf into it -/
@@ -113,21 +114,22 @@ def NTHBUF : Nat := 79
     `char buf[MAXHOSTNAMELEN+16]; len = snprintf(buf, 79, "%s", prefix);
      snprintf(buf+len, 79-len, "%0*lu", ...)` — names are cut to 78 characters, and for a range
     record whose prefix has ≥ 80 characters `79 - len` wraps to a huge `size_t` and the number is
-    written past the array (`none`).   Repaired form: `some full`. -/
-def nthName (r : HRange) (depth : Nat) : Option Str :=
-  if r.single then some (r.pre.take (NTHBUF - 1))
+    written past the array (`none`).   Repaired: a buffer sized from prefix and width. -/
+def nthName (cfg : Cfg) (r : HRange) (depth : Nat) : Option Str :=
+  if cfg.fixNth then some (if r.single then r.pre else r.pre ++ fmtPad r.width (addU64 r.lo depth))
+  else if r.single then some (r.pre.take (NTHBUF - 1))
   else if r.pre.length > NTHBUF then none
   else some ((r.pre ++ fmtPad r.width (addU64 r.lo depth)).take (NTHBUF - 1))
 
 /-- `hostlist_nth(hl, n)` for `n ≥ 0`: `int num_in_range = hostrange_count(..)`;
     `none` = NULL, `some none` = the write past `buf` -/
-def nthLoop : List HRange → Nat → Nat → Option (Option Str)
+def nthLoop (cfg : Cfg) : List HRange → Nat → Nat → Option (Option Str)
   | [], _, _ => none
   | r :: rs, n, count =>
     let num := r.count                      -- ≤ 16384 or 0 (wrapped) for parsed records
-    if n + 1 ≤ num + count then some (nthName r (n - count))
-    else nthLoop rs n (count + num)
+    if n + 1 ≤ num + count then some (nthName cfg r (n - count))
+    else nthLoop cfg rs n (count + num)
 
-def nth (h : HL) (n : Nat) : Option (Option Str) := nthLoop h.ranges.toList n 0
+def nth (cfg : Cfg) (h : HL) (n : Nat) : Option (Option Str) := nthLoop cfg h.ranges.toList n 0
 
 end PdshVerif.Hostlist
